@@ -150,6 +150,7 @@ template <size_t W>
 void MeasureRecordBatch<W>::clear() {
     stored = 0;
     unwritten = 0;
+    written = 0;
 }
 
 template <size_t W>
